@@ -1147,7 +1147,22 @@ func FaultProgram(t *rapid.T, p Profile) *Case {
 		b.place(l)
 		b.Alu()
 	}
-	switch rapid.IntRange(0, 4).Draw(t, "fault") {
+	fk := rapid.IntRange(0, 5).Draw(t, "fault")
+	if !b.Valid() && fk == 5 {
+		fk = 0
+	}
+	switch fk {
+	case 5:
+		// a slow fault: the dividend is loaded right before, so the division waits
+		// in its unit for the load while younger instructions — the ret, the
+		// branch or the jump emitted below — go ahead; the error is then raised
+		// inside one of the drain loops
+		op := b.memOp(loadOps)
+		x := b.dest("fx")
+		base, off := b.baseFor(b.addr(ref.AccessSize(op), "fea"))
+		b.emit(ref.Ins{Op: op, Rd: x, Rs1: base, Imm: off})
+		b.emit(ref.Ins{Op: rapid.SampledFrom([]string{"div", "rem"}).Draw(t, "op"), Rd: b.dest("rd"), Rs1: x, Rs2: 0})
+		b.Meta["fault_slow"]++
 	case 0:
 		b.emit(ref.Ins{Op: "div", Rd: b.dest("rd"), Rs1: b.reg("rs1"), Rs2: 0})
 		b.Meta["fault_div"]++
@@ -1170,6 +1185,21 @@ func FaultProgram(t *rapid.T, p Profile) *Case {
 	if inLoop {
 		b.emit(ref.Ins{Op: "addi", Rd: RegCnt, Rs1: RegCnt, Imm: -1})
 		b.emit(ref.Ins{Op: "bnez", Rs1: RegCnt, Label: l})
+	}
+	// what follows the fault is never executed architecturally, but the pipeline
+	// runs ahead into it
+	switch rapid.IntRange(0, 4).Draw(t, "behindfault") {
+	case 0:
+		b.emit(ref.Ins{Op: "ret"})
+	case 1:
+		l2 := b.label()
+		b.emit(ref.Ins{Op: "beq", Rs1: 0, Rs2: 0, Label: l2})
+		b.emit(ref.Ins{Op: "nop"})
+		b.place(l2)
+	case 2:
+		l2 := b.label()
+		b.emit(ref.Ins{Op: "j", Label: l2})
+		b.place(l2)
 	}
 	for j := rapid.IntRange(0, 4).Draw(t, "after"); j > 0; j-- {
 		b.Alu()
